@@ -528,6 +528,15 @@ func runLayout(res *vutil.Result, name string, leds []string, tier string) {
 								delete(w.r.ext, [2]int{int(oth), int(p2)})
 								w.check(chanColor)
 								if len(hs) == 1 && w.r.sem == 0 {
+									// transposition changes while the key is held: its note keeps sounding at the OLD pitch, and
+									// the active colour belongs to whatever key plays that pitch now
+									w.tap("KEY_F2")
+									w.check(chanColor)
+									w.tap("KEY_F4")
+									w.check(chanColor)
+									w.tap("KEY_F3")
+									w.tap("KEY_F1")
+									w.check(chanColor)
 									w.midiIn(midi.NoteEvent(midi.NoteOn, cur, 64, 1), "midi NoteOn cur/64")
 									w.r.ext[[2]int{int(cur), 64}] = true
 									w.midiIn(midi.NoteEvent(midi.NoteOn, cur, 64, 0), "midi NoteOn velocity 0 cur/64")
